@@ -51,6 +51,7 @@ def step (d : D) (line : String) : D × String :=
     let ids := ((g "ids").splitOn ",").filterMap String.toNat?
     let p' := commit d.cfg d.p ids (parsePairs (g "nonces"))
     ({ d with p := p' }, "ok " ++ snap p')
+  | ["quiet"] => (d, "ok")
   | ["snap"] => (d, "ok " ++ snap d.p)
   | ["flush"] => let p' := flush d.p; ({ d with p := p' }, "ok " ++ snap p')
   | _ => (d, "bad-op")
